@@ -13,6 +13,7 @@ BUILDERS = {
     "verifs": V.build_sched_harness,
     "verifr": V.build_race_harness,
     "verif26": V.build_go126_harness,
+    "verifc": V.build_caddy_harness,
 }
 
 EXTRA_STAGES = {}
@@ -84,6 +85,25 @@ PROPS = {
                 "non-trivial = at least two listed documents. hub-histories: " + HUB_RULE,
         "trusted": HUB_TRUST + ["gorilla/mux routing on the encoded path and net/http URL parsing: glue covered by the differential run only"],
         "assumptions": ["selectors and subscriber ids are non-empty byte strings"],
+    },
+    "C19": {
+        "binaries": ["verifc"],
+        "stages": [{"kind": "cases", "name": "configurations", "driver": "C19", "binary": "verifc", "n": {"quick": 600, "thorough": 12000}}],
+        "rule": "configurations: 60% Caddyfile blocks (0-14 mercure directives in random order with repeats: publisher_jwt / subscriber_jwt with keys {two HMAC secrets, an RSA "
+                "public key, empty} and algorithms {absent, empty, HS256/384/512, RS256, ES256, XX, none}, anonymous, subscriptions, publish_origins / cors_origins over valid "
+                "and invalid origins, cookie_name, protocol_version_compatibility {7, 6, 8, 0}, the three timeouts, transport bolt/local as module or as legacy transport_url), "
+                "20% the JSON form of the module, 20% the legacy viper options; each is unmarshalled and provisioned in-process by the real module (caddyfile dispenser -> "
+                "UnmarshalCaddyfile / strict JSON -> Provision with a caddy.Context; NewHubFromViper) and, when accepted, probed through its handler: which of 11 candidate "
+                "(key, algorithm) tokens publish, which subscribe, anonymous subscription, subscription API present, the cookie name consulted (valid / garbage token under 4 names), "
+                "CORS header and cookie-authenticated publish from 4 origins, a public publish outside the publish claim (compatibility 7); plus the effective options struct "
+                "(timeouts, transport type, origins, cookie, flags) read through an accessor added at build time. Compared with Model/Config.v and judged by cfg_spec_ok "
+                "(every permission in effect was asked for; refusals where required). non-trivial = accepted configuration",
+        "trusted": ["caddyfile tokenizer, caddy.Context module loading, viper: glue exercised by the differential run only",
+                    "key_ok / origin_ok oracles: tables computed by the harness's own rules (HMAC any key; RS256 iff the key is the RSA PEM; scheme://host[:port], * or null)",
+                    "golang-jwt signs the candidate tokens; token verification itself is C03",
+                    "two read-only accessors overlaid at build time (harness_caddy/overlay): mercure.VerifOptions, caddy.VerifHub"],
+        "assumptions": ["keys and arguments contain no Caddy placeholder ({...}) and no double quote", "one transport style (module or transport_url) per configuration; "
+                        "MERCURE_TRANSPORT_URL unset; JWKS URLs, demo/ui, lru_cache not modelled"],
     },
     "C16": {
         "binaries": ["verif26"],
